@@ -33,7 +33,7 @@ impl PanicInfo {
         format!("panic@{}:{}", file, m)
     }
     pub fn in_library(&self) -> bool {
-        self.file.starts_with("/repo/") || self.file.starts_with("src/")
+        self.file.starts_with("/repo/")
     }
     pub fn json(&self) -> Value {
         json!({"panic": self.msg, "at": format!("{}:{}", self.file, self.line)})
